@@ -1,15 +1,12 @@
 package lib
 
 import (
-	"errors"
 	"fmt"
 	"os"
 	"runtime/debug"
 	"sync"
 	"sync/atomic"
 	"time"
-
-	jsonpatch "github.com/evanphx/json-patch/v5"
 )
 
 // Opts mirrors the spec's option record [neg, limit, allow, ensure, esc].
@@ -21,35 +18,11 @@ type Opts struct {
 	Esc    bool `json:"esc"`
 }
 
-// Native converts to the library's options.
-func (o Opts) Native() *jsonpatch.ApplyOptions {
-	return &jsonpatch.ApplyOptions{
-		SupportNegativeIndices:   o.Neg,
-		AccumulatedCopySizeLimit: int64(o.Limit),
-		AllowMissingPathOnRemove: o.Allow,
-		EnsurePathExistsOnAdd:    o.Ensure,
-		EscapeHTML:               o.Esc,
-	}
-}
-
 // ErrClass is the projection of a Go error (never its message).
 type ErrClass struct {
 	Test    bool `json:"test"`    // errors.Is(err, ErrTestFailed)
 	Copy    bool `json:"copy"`    // errors.As(err, *AccumulatedCopySizeError)
 	Missing bool `json:"missing"` // errors.Is(err, ErrMissing)
-}
-
-// Classify projects an error.
-func Classify(err error) ErrClass {
-	var c ErrClass
-	if err == nil {
-		return c
-	}
-	c.Test = errors.Is(err, jsonpatch.ErrTestFailed)
-	var ce *jsonpatch.AccumulatedCopySizeError
-	c.Copy = errors.As(err, &ce)
-	c.Missing = errors.Is(err, jsonpatch.ErrMissing)
-	return c
 }
 
 // Result of one guarded call.
@@ -129,30 +102,3 @@ func (w *Watchdog) Guard(i int, what func() *Violation, f func()) (panicked stri
 	return ""
 }
 
-// ---------------------------------------------------------------------------
-// The v5 entry points.
-// ---------------------------------------------------------------------------
-
-// DecodePatch calls jsonpatch.DecodePatch.
-func DecodePatch(patch []byte) (jsonpatch.Patch, error) { return jsonpatch.DecodePatch(patch) }
-
-// Apply decodes the patch and applies it with options (indent "" = ApplyWithOptions).
-// decodeErr is set when DecodePatch rejected the patch.
-func Apply(doc, patch []byte, o Opts, indent string) (out []byte, err error, decodeErr error) {
-	p, derr := jsonpatch.DecodePatch(patch)
-	if derr != nil {
-		return nil, nil, derr
-	}
-	if indent == "" {
-		out, err = p.ApplyWithOptions(doc, o.Native())
-	} else {
-		out, err = p.ApplyIndentWithOptions(doc, indent, o.Native())
-	}
-	return out, err, nil
-}
-
-// MergePatch, MergeMergePatches, CreateMergePatch, Equal: the merge-patch entry points.
-func MergePatch(doc, patch []byte) ([]byte, error)        { return jsonpatch.MergePatch(doc, patch) }
-func MergeMergePatches(p1, p2 []byte) ([]byte, error)     { return jsonpatch.MergeMergePatches(p1, p2) }
-func CreateMergePatch(a, b []byte) ([]byte, error)        { return jsonpatch.CreateMergePatch(a, b) }
-func Equal(a, b []byte) bool                              { return jsonpatch.Equal(a, b) }
